@@ -64,8 +64,9 @@ Section Check.
   Definition check_pos (ds : list Z) (w : bool) : bool :=
     let p := pos_of ds w in
     if legalb cls p then
-      tlabel_eqb (T ds w) (TL (expected (moves cls) (in_check cls) lab p)) &&
-      forallb (legalb cls) (moves cls p)
+      let cs := moves cls p in             (* = expected (moves cls) (in_check cls) lab p, moves computed once *)
+      tlabel_eqb (T ds w) (TL (expected_of (in_check cls p) (map lab cs))) &&
+      forallb (legalb cls) cs
     else if wfb cls p then tlabel_eqb (T ds w) TNotFound
     else tlabel_eqb (T ds w) TUnrep.
 
